@@ -16,6 +16,7 @@ import BytomModel.Model.StdProgs
 import BytomModel.Lemmas.Asm
 import BytomModel.Lemmas.AsmAppend
 import BytomModel.Lemmas.AsmInj
+import BytomModel.Lemmas.AsmLabel
 
 namespace BytomModel.Props.C09
 open BytomModel.Asm BytomModel.Lemmas.Asm BytomModel.Gen
@@ -820,5 +821,33 @@ theorem asm_disasm_exact_on_canonical (p : Bytes) (is : List Inst) (hlen : p.len
   congr 1
   have : is.map canonInst = is.map id := List.map_congr_left (fun i hi => by simpa using hcanon i hi)
   rw [this, List.map_id]
+
+
+/-! ### label names of Disassemble -/
+
+/-- **label_names_distinct.** The name Disassemble gives to the n-th distinct jump target
+    (`words[n % 26]`, plus the decimal round number `n/26 + 1` from the second round on) is
+    different for different n, for ALL n: no label is ever defined twice in a disassembly, so
+    Assemble cannot answer `label … redefined` on Disassemble's output. -/
+theorem label_names_distinct (m n : Nat) (h : labelName m = labelName n) : m = n :=
+  labelName_injective h
+
+/-- the naming scheme around the end of the first and second round -/
+theorem label_name_examples :
+    labelName 0 = [0x61, 0x6c, 0x70, 0x68, 0x61] ∧                      -- alpha
+    labelName 25 = [0x7a, 0x75, 0x6c, 0x75] ∧                            -- zulu
+    labelName 26 = [0x61, 0x6c, 0x70, 0x68, 0x61, 0x32] ∧               -- alpha2
+    labelName 27 = [0x62, 0x72, 0x61, 0x76, 0x6f, 0x32] ∧               -- bravo2
+    labelName 51 = [0x7a, 0x75, 0x6c, 0x75, 0x32] ∧                      -- zulu2
+    labelName 52 = [0x61, 0x6c, 0x70, 0x68, 0x61, 0x33] ∧               -- alpha3
+    labelName 259 = [0x7a, 0x75, 0x6c, 0x75, 0x31, 0x30] := by decide   -- zulu10
+
+/-- 27 jumps to 27 distinct instruction boundaries (jump k targets its own offset 5k) -/
+def jumps27 : Bytes :=
+  (List.range 27).flatMap (fun k => [0x63, UInt8.ofNat (5 * k), 0x00, 0x00, 0x00])
+
+/-- a program with 27 distinct boundary targets — one more than there are words — round-trips
+    exactly in the model (the 27th label is `alpha2`, not `alpha` again) -/
+theorem roundtrip_27_labels : asmDis jumps27 = some (.ok jumps27) := by decide +kernel
 
 end BytomModel.Props.C09
